@@ -73,7 +73,10 @@ func dominates(t1, t2 tmpl.T) bool {
 		if a.String() == b.String() {
 			continue
 		}
-		return a.Kind == tmpl.Lit && b.Pure()
+		// "spells the next path segment literally": a literal segment, or a variable whose
+		// pattern starts with one ({f=a/*}: the next path segment must be "a")
+		lit := a.Kind == tmpl.Lit || (a.Kind == tmpl.Var && len(a.Sub) > 0 && a.Sub[0].Kind == tmpl.Lit)
+		return lit && b.Pure()
 	}
 	return false
 }
